@@ -35,7 +35,7 @@ CLAIMED = {
              'touching / disjoint data ranges, empty data, trailing data). Inputs the format cannot hold (out-of-range words, '
              '>64-bit fields, odd or out-of-pool data ranges) must be refused with FlipJumpWriteFjmException.',
         note='LZMA is stubbed by its round-trip contract (the contract itself is validated per preset on the real Writer/Reader with an 11 MiB buffer); struct/open/range stubs listed in evidence; lazy zero tails are also read through the Reader\'s accessor; dense/lazy zero-tail threshold '
-             'patched to 3 for the symbolic runs and re-checked concretely at 998..1002. Bounds: <=3 segments, <=8 data words.',
+             'patched to 3 for the symbolic runs and re-checked concretely at 998..1002. Bounds: <=4 segments, <=8 data words; three-call histories with a zero-data segment between sharing ranges.',
         technique=_T_PYSYM, ref='DESIGN.md 2/C06'),
     'C10': dict(
         text='Bounded symbolic verification of the real Reader: (a) every file of length <= header + 2 segment records + 8 data '
